@@ -212,3 +212,35 @@ func sortStrings(s []string) {
 		}
 	}
 }
+
+// c04backendRulesReach: some catalogue rules (a constant or default value of a kind its type cannot hold) are enforced by
+// the Go backend's constant resolver while it builds the scope of a file, not by the semantic pass. A file's scope is built
+// when the file is generated (the main file, every file with -r) or when it is an include that is *used*; buildIncludes
+// skips includes whose Used flag is unset. A rule-breaking file that is included but not referenced is therefore never
+// looked at without -r: thriftgo exits 0 although the IDL set breaks a rule it enforces.
+func c04backendRulesReach(c *core.Check) {
+	fd := c.Prog.FuncDecl(golangRel, "Scope.buildIncludes")
+	key := golangRel + ".(Scope).buildIncludes/unused-includes"
+	if fd == nil {
+		c.Unknown("anchor", key, "", "missing")
+		return
+	}
+	skip := ""
+	ast.Inspect(fd.Body, func(n ast.Node) bool {
+		is, ok := n.(*ast.IfStmt)
+		if !ok || !strings.Contains(rules.ExprString(is.Cond), "Used") {
+			return true
+		}
+		for _, st := range is.Body.List {
+			if br, ok := st.(*ast.BranchStmt); ok && br.Tok == token.CONTINUE {
+				skip = rules.ExprString(is.Cond)
+			}
+		}
+		return true
+	})
+	// is a catalogue rule enforced in the backend at all?
+	backend := c.Prog.FuncDecl(golangRel, "Resolver.resolveConst") != nil
+	c.Decide(!(backend && skip != ""), "E7-backend-rules-reach-every-file", key, c.Prog.Rel(fd.Pos()),
+		"every included file's scope is built (or no catalogue rule is enforced by the backend)",
+		"the scope of an include is only built when `"+skip+"` does not hold, and the value-kind rules of the catalogue are enforced while a scope is built (Resolver.resolveConst): `include \"a.thrift\"` with `struct A {1: i32 x = \"str\"}` in a.thrift and no reference into it is accepted with exit 0 unless -r is given")
+}
